@@ -1171,3 +1171,47 @@ func (r *Run) NoLoadAfterStore(fnName, p, why string) {
 	}
 	r.pass("K2-load-before-store", fnName, construct, fmt.Sprintf("%d load(s) all before %d store(s)", len(loads), len(stores)), why, file, line)
 }
+
+// OnCondMustNotCall: from the edge on which cond holds, none of the calls is reachable.
+func (r *Run) OnCondMustNotCall(fnName, cond string, matches []string, why string) {
+	fn := r.fn(fnName)
+	if fn == nil {
+		return
+	}
+	cond = r.X(cond)
+	file, line := r.P.FnPos(fn)
+	construct := "when " + cond + " ⇒ none of " + strings.Join(matches, ",")
+	for _, g := range r.P.Info(fn).guards {
+		var start *ssa.BasicBlock
+		if g.Cond.String() == cond {
+			start = g.Block.Succs[0]
+		} else if g.Cond.Negate().String() == cond {
+			start = g.Block.Succs[1]
+		} else {
+			continue
+		}
+		seen := map[*ssa.BasicBlock]bool{start: true}
+		work := []*ssa.BasicBlock{start}
+		for len(work) > 0 {
+			b := work[len(work)-1]
+			work = work[:len(work)-1]
+			for _, s := range b.Succs {
+				if !seen[s] {
+					seen[s] = true
+					work = append(work, s)
+				}
+			}
+		}
+		for _, m := range matches {
+			for _, cs := range r.P.FindCalls(fn, m, false) {
+				if seen[cs.Instr.Block()] {
+					r.viol("K2-on-cond-not", fnName, construct, fmt.Sprintf("when %s holds (%s:%d), %s at %s:%d is still reachable", cond, g.File, g.Line, m, cs.File, cs.Line), why, cs.File, cs.Line)
+					return
+				}
+			}
+		}
+		r.pass("K2-on-cond-not", fnName, construct, "", why, g.File, g.Line)
+		return
+	}
+	r.viol("K2-on-cond-not", fnName, construct, fnName+" no longer branches on "+cond, why, file, line)
+}
